@@ -15,6 +15,7 @@ import z3
 from .values import UF, R
 
 NAMES = {"exp", "log", "tanh", "arctanh", "sqrt"}
+Z3NAMES = {"r_" + n: n for n in NAMES}
 
 
 def _apps(exprs):
@@ -30,8 +31,8 @@ def _apps(exprs):
             continue
         if z3.is_app(e):
             d = e.decl()
-            if d.kind() == z3.Z3_OP_UNINTERPRETED and d.name() in NAMES and e.num_args() == 1:
-                out[d.name()].append((e, e.arg(0)))
+            if d.kind() == z3.Z3_OP_UNINTERPRETED and d.name() in Z3NAMES and e.num_args() == 1:
+                out[Z3NAMES[d.name()]].append((e, e.arg(0)))
             stack.extend(e.children())
     return out
 
@@ -148,6 +149,33 @@ def instances(exprs, rounds=2, extra_terms=(), tanh_as_exp=True, max_pairs=400):
             add(z3.Implies(t > 0, a > 1))
             add(z3.Implies(t < 0, a < 1))
             add(a >= 1 + t)  # convexity: e^t >= 1 + t
+        # exp of a Z-linear combination of atoms:  exp(sum c_i a_i + c0) * prod_{c<0} E(a)^|c| == prod_{c>0} E(a)^c * exp(c0),
+        # with E(log u) = u (u > 0) and E(a) = exp(a) otherwise
+        for a, t in list(ex.values()):
+            if ("explin", a.get_id()) in done:
+                continue
+            done.add(("explin", a.get_id()))
+            terms, const = linform(t)
+            cs = [c for (_at, c) in terms.values()]
+            if not terms or any(c.denominator != 1 or abs(c) > 6 for c in cs):
+                continue
+            if len(terms) == 1 and cs[0] == 1 and const == 0:
+                continue
+            lhs, rhs, guards = a, z3.RealVal(1), []
+            for (atom, c) in terms.values():
+                if z3.is_app(atom) and atom.decl().kind() == z3.Z3_OP_UNINTERPRETED and atom.decl().name() == "r_log" and atom.num_args() == 1:
+                    E = atom.arg(0)
+                    guards.append(E > 0)
+                else:
+                    E = exp(atom)
+                for _ in range(abs(int(c))):
+                    if c > 0:
+                        rhs = rhs * E
+                    else:
+                        lhs = lhs * E
+            if const != 0:
+                rhs = rhs * exp(z3.RealVal(str(const)))
+            add(z3.Implies(z3.And(*guards), lhs == rhs) if guards else lhs == rhs)
         lfs = {i: linform(arg) for i, (_a, arg) in ex.items()}
         bykey = {}
         for i, lf in lfs.items():
